@@ -224,7 +224,50 @@ func C17(r *vf.Run) {
 		})
 		r.Cell("hostile-order:sequences")
 	}
+	if r.Phase("muldiv-long-gaps") {
+		// one colour left alone while tens of thousands of calls with other colours and other ratios go by,
+		// then asked again: gaps around 2^8, 2^16 and 2^17 calls / ratio changes (the sizes of counters)
+		gaps := []int{254, 255, 256, 257, 65534, 65535, 65536, 65537, 131069, 131070, 131071, 131072}
+		vf.Parallel(1, r.N(8, 64), func(w, si int) { // one goroutine: the count of calls in between is the point
+			g := r.Rand("gaps").Fork(uint64(si))
+			var cells [3][3]int64
+			v := 1 + g.Intn(31)
+			probe := v | v<<5 | v<<10
+			// fillers avoid the probe's channel value; every call changes the ratio (mode 0) or a third do (mode 1)
+			filler := func() int {
+				for {
+					c := int(g.U16()) & 0x7FFF
+					if c&31 != v && c>>5&31 != v && c>>10&31 != v {
+						return c
+					}
+				}
+			}
+			fills := []int{0, filler(), filler(), filler()}
+			mode := si % 2
+			ms := []int{1, 3, 7, 200}
+			ds := []int{2, 3, 5, 255}
+			k := 0
+			n := int64(0)
+			for _, gap := range gaps {
+				check(probe, ms[g.Intn(4)], ds[g.Intn(4)], &cells)
+				for i := 1; i < gap; i++ {
+					k++
+					if mode == 0 || i%3 == 0 {
+						check(fills[i%4], ms[k%4], ds[(k/4)%4], &cells)
+					} else {
+						check(fills[i%4], ms[0], ds[0], &cells)
+					}
+				}
+				n += int64(gap)
+			}
+			check(probe, ms[g.Intn(4)], ds[g.Intn(4)], &cells)
+			r.Eval(n)
+			merge(&cells)
+		})
+		r.Cell("long-gaps:sequences")
+	}
 	if r.OnlyPhase == "" {
+		r.Require("long-gaps:sequences")
 		r.Require("hostile-order:zero-divisor-calls-recovered")
 		r.Require("muldiv:r:q>=256")
 		r.Require("muldiv:b:q32..255")
